@@ -79,12 +79,24 @@ func aliasingConfig(seed uint64, i int, root string) (*gen.Case, error) {
 		&gen.Content{Src: filepath.Join(root, host.Rel), Dst: "/lib64/" + s.Name + "/lib.so"},
 		&gen.Content{Type: "symlink", Src: "/nonexistent-verif/x", Dst: "/lib/" + s.Name + "-link"},
 	)
+	if s.Changelog != "" {
+		// entries listed oldest first and out of date order: whoever sorts them
+		// must not do so in a list another packager renders later
+		body := ""
+		for k, d := range []string{"2019-01-01T00:00:00Z", "2021-06-01T00:00:00Z", "2020-03-01T00:00:00Z", "2022-09-01T00:00:00Z"} {
+			body += fmt.Sprintf("- semver: \"0.%d.0\"\n  date: %s\n  packager: \"P%d <p%d@example.com>\"\n  changes:\n    - note: \"entry %d\"\n", k+1, d, k, k, k)
+		}
+		if st, err := os.Stat(s.Changelog); err == nil {
+			_ = os.WriteFile(s.Changelog, []byte(body), 0o644)
+			_ = os.Chtimes(s.Changelog, st.ModTime(), st.ModTime())
+		}
+	}
 	// per-format umasks: a mode frozen by one format would show up in another
 	for k, f := range formats {
 		ov := s.Overrides[f]
 		if ov == nil {
-			if k%2 == 0 {
-				continue // formats without an override block are part of the mix
+			if k%2 == i%2 {
+				continue // formats without an override block are part of the mix (which ones varies with the configuration)
 			}
 			ov = &gen.Over{}
 		}
@@ -95,6 +107,18 @@ func aliasingConfig(seed uint64, i int, root string) (*gen.Case, error) {
 		&gen.Content{Type: "config|noreplace", Src: filepath.Join(root, host.Rel), Dst: "/etc/" + s.Name + "/noreplace.conf"},
 		&gen.Content{Type: "config|missingok", Src: filepath.Join(root, host.Rel), Dst: "/etc/" + s.Name + "/missingok.conf"},
 	)
+	if i%2 == 1 {
+		// no override block for ipk at all in these configurations (its settings
+		// then come straight from the base)
+		delete(s.Overrides, "ipk")
+		var keep []string
+		for _, f := range s.OverrideOrder {
+			if f != "ipk" {
+				keep = append(keep, f)
+			}
+		}
+		s.OverrideOrder = keep
+	}
 	s.Depends = []string{"zeta", "zeta", "alpha", "mid >= 1.0", "paren (>= 1.2)", "dbl  (>= 1.0)", "tab\t(>= 2)", "alpha2", "alpha"} // unsorted, with duplicates that are not last, both relation spellings, runs of white space
 	s.Provides = []string{"prov-b", "prov-b", "prov-a", "prov-c"}
 	s.Conflicts = []string{"c2", "c2", "c1", "c3"}
@@ -448,6 +472,7 @@ func c11(run *ev.Run, tier string) {
 	}
 	c11OneFormatFails(run, &ops, &compared)
 	c11OtherPlatform(run, &ops, &compared)
+	c11NameThenPackageOfInvalidSettings(run, &ops)
 	run.Set("sequences_executed", nseq)
 	run.Set("operations_executed", ops)
 	run.Set("packages_compared_with_fresh_parse", compared)
@@ -619,6 +644,44 @@ func c11OtherPlatform(run *ev.Run, ops, compared *int64) {
 						run.Violate("C11/"+f+"/bytes-differ-from-fresh-parse/after-name-"+f, d)
 					}
 				}
+			}
+		}
+	}
+}
+
+// c11NameThenPackageOfInvalidSettings: settings one format refuses (an invalid
+// archlinux package name) are refused by Package whether or not the file name
+// was asked for on the same settings object before.
+func c11NameThenPackageOfInvalidSettings(run *ev.Run, ops *int64) {
+	dir := newWorkDir("c11i")
+	defer removeWorkDir(dir)
+	pf := filepath.Join(dir, "p.txt")
+	_ = os.WriteFile(pf, []byte("p\n"), 0o644)
+	for _, name := range []string{"bad name!", "-leading-dash", ".leading-dot", "sl/ash", "ünïcode"} {
+		s := &gen.Spec{Name: name, Arch: "amd64", Version: "1.0.0", Maintainer: "O <o@example.com>", Description: "d", MTime: 1400000000}
+		s.RPM.BuildHost = "verif-host"
+		s.Contents = []*gen.Content{{Src: pf, Dst: "/opt/op/p.txt"}}
+		y := s.YAML()
+		for _, f := range formats {
+			direct := buildYAML(y, f)
+			if direct.Panic != "" || direct.Err == nil {
+				continue // this format takes the name: covered by the byte comparisons elsewhere
+			}
+			cfg, err := parseYAML(y, nil)
+			if err != nil {
+				continue
+			}
+			info, err := infoFor(&cfg, f)
+			if err != nil {
+				continue
+			}
+			p, _ := nfpm.Get(f)
+			name1 := p.ConventionalFileName(info)
+			res := packageInfo(f, info)
+			*ops += 2
+			run.Case(fmt.Sprintf("invalid-settings|name-then-package|%q|%s", name, f), true)
+			if res.Err == nil && res.Panic == "" {
+				run.Violate("C11/"+f+"/refused-settings-accepted-after-file-name-request", map[string]any{"name": name, "file_name": name1, "direct_package_error": direct.Err.Error()})
 			}
 		}
 	}
